@@ -63,6 +63,7 @@ type plan struct {
 	ID       string
 	Exit     string // ok, mw-err, handler-err, handler-panic, scope-fail
 	MwFailAt int
+	MwWrites bool // mw-err: the failing middleware has answered the request itself (status 401) before it returns its error
 }
 
 type reqLog struct {
@@ -172,6 +173,14 @@ func (w *webWorld) onMiddleware(i int, s godi.Scope, id string) error {
 		return fmt.Errorf("middleware %d failed", i)
 	}
 	return nil
+}
+
+// mwWrites reports whether the request's failing middleware answers the request
+// itself before returning its error (only adapters whose middleware signature
+// gives access to the response can do that: gin, echo, fiber).
+func (w *webWorld) mwWrites(id string, i int) bool {
+	p := w.plan(id)
+	return p.Exit == "mw-err" && p.MwFailAt == i && p.MwWrites
 }
 
 // onHandler is the body of a plain handler; returns the error to return.
@@ -389,7 +398,13 @@ func ginAdapter(w *webWorld, p godi.Provider, cfg appCfg) func(string) (int, any
 	var opts []godigin.Option
 	for i := 0; i < cfg.NMw; i++ {
 		i := i
-		opts = append(opts, godigin.WithMiddleware(func(s godi.Scope, c *gin.Context) error { return w.onMiddleware(i, s, reqID(c.Request)) }))
+		opts = append(opts, godigin.WithMiddleware(func(s godi.Scope, c *gin.Context) error {
+			err := w.onMiddleware(i, s, reqID(c.Request))
+			if err != nil && w.mwWrites(reqID(c.Request), i) {
+				c.String(401, "rejected")
+			}
+			return err
+		}))
 	}
 	if cfg.CustomErr {
 		opts = append(opts, godigin.WithErrorHandler(func(c *gin.Context, err error) { w.count(reqID(c.Request), "errH"); c.AbortWithStatus(599) }))
@@ -440,7 +455,13 @@ func echoAdapter(w *webWorld, p godi.Provider, cfg appCfg) func(string) (int, an
 	var opts []godiecho.Option
 	for i := 0; i < cfg.NMw; i++ {
 		i := i
-		opts = append(opts, godiecho.WithMiddleware(func(s godi.Scope, c echo.Context) error { return w.onMiddleware(i, s, reqID(c.Request())) }))
+		opts = append(opts, godiecho.WithMiddleware(func(s godi.Scope, c echo.Context) error {
+			err := w.onMiddleware(i, s, reqID(c.Request()))
+			if err != nil && w.mwWrites(reqID(c.Request()), i) {
+				_ = c.String(401, "rejected")
+			}
+			return err
+		}))
 	}
 	if cfg.CustomErr {
 		opts = append(opts, godiecho.WithErrorHandler(func(c echo.Context, err error) error { w.count(reqID(c.Request()), "errH"); return c.NoContent(599) }))
@@ -489,7 +510,13 @@ func fiberAdapter(w *webWorld, p godi.Provider, cfg appCfg) func(string) (int, a
 	var opts []godifiber.Option
 	for i := 0; i < cfg.NMw; i++ {
 		i := i
-		opts = append(opts, godifiber.WithMiddleware(func(s godi.Scope, c *fiber.Ctx) error { return w.onMiddleware(i, s, fid(c)) }))
+		opts = append(opts, godifiber.WithMiddleware(func(s godi.Scope, c *fiber.Ctx) error {
+			err := w.onMiddleware(i, s, fid(c))
+			if err != nil && w.mwWrites(fid(c), i) {
+				_ = c.Status(401).SendString("rejected")
+			}
+			return err
+		}))
 	}
 	if cfg.CustomErr {
 		opts = append(opts, godifiber.WithErrorHandler(func(c *fiber.Ctx, err error) error { w.count(fid(c), "errH"); return c.SendStatus(599) }))
@@ -634,7 +661,8 @@ func judge(cfg appCfg, pl *plan, l *reqLog, status int, escaped any, providerClo
 		if cfg.CustomErr && l.ErrH != 1 {
 			return ff("middleware-error", fw+"/errh", "error handler ran %d times, want 1", l.ErrH)
 		}
-		if !cfg.CustomErr && status != 500 {
+		wrote := pl.MwWrites && (fw == "gin" || fw == "echo" || fw == "fiber")
+		if !cfg.CustomErr && status != 500 && !wrote {
 			return ff("middleware-error", fw+"/status", "default error handler should answer 500, got %d", status)
 		}
 	} else {
@@ -730,6 +758,7 @@ func TestC16Web(t *testing.T) {
 			pl := &plan{ID: fmt.Sprintf("q%d", nreq), Exit: rapid.SampledFrom(exits).Draw(rt, "exit")}
 			if pl.Exit == "mw-err" {
 				pl.MwFailAt = rapid.IntRange(0, 3).Draw(rt, "mwFailAt")
+				pl.MwWrites = rapid.IntRange(0, 2).Draw(rt, "mwWrites") == 0
 			}
 			if pl.Exit == "client-gone" && cfg.Framework == "fiber" {
 				pl.Exit = "ok" // fiber's user context is not tied to the connection: nothing to cancel
